@@ -79,6 +79,12 @@ def gen_rounds(seed, tier, run):
         for k in KINDS:
             out.append(f"sort {arr(sh, es)} z1 {k}")
             out.append(f"sort {arr(sh, es)} z0 {k}")
+            out.append(f"argsort {arr(sh, es)} z1 {k}")
+        out.append(f"unique {arr(sh, es)} n")
+        out.append(f"unique {arr([L], [e % 7 for e in es[:L]])} n")
+        for ax in ("n", "z0", "z1"):
+            out.append(f"argmax@i32 {arr(sh, [e % 5 for e in es])} {ax} z{rng.randint(0, 2)}")
+            out.append(f"argmin@i32 {arr(sh, [e % 5 for e in es])} {ax} z{rng.randint(0, 2)}")
     impl, model = run(out)
     # the four kinds agree with each other (on the implementation's own results)
     again = []
